@@ -9,11 +9,19 @@ def main():
     out = []
     # perturb the heap layout a little so that id()-dependent orders have a chance to differ
     junk = [object() for _ in range(int(os.environ.get("VERIF_JUNK", "0")))]
+    import gc, locale
+    def interp_state():
+        # what a later compilation in this process could feel besides the compiler's own objects
+        return {"recursionlimit": sys.getrecursionlimit(), "cwd": os.getcwd(), "sys.path": list(sys.path), "environ": dict(os.environ),
+                "gc.threshold": gc.get_threshold(), "locale": locale.setlocale(locale.LC_ALL), "switchinterval": sys.getswitchinterval()}
     for j in jobs:
         I = export.Interner()
+        before = interp_state()
         r = nm.compile_source(j["src"], j["flags"], interner=I)
+        after = interp_state()
         m = r["machines"].get("post_optimize")
         out.append({"verdict": r["verdict"], "message": r["message"][:200], "machine": m,
+                    "interp_changed": {k: [repr(before[k])[:80], repr(after[k])[:80]] for k in before if before[k] != after[k]},
                     "prims": [p["key"] for p in I.prim_info], "tests": [t["key"] for t in I.test_info],
                     "prim_info": I.prim_info, "test_info": I.test_info})
     json.dump(out, sys.stdout)
